@@ -105,6 +105,9 @@ class Helpers:
             return self._get("R", canon, vint.check_reader, N)
         return self._get("R", canon, lambda F, f, N: vint.check_reader(F, f, N, src, value_of_ret), N)
 
+    def dyn_reader(self, canon, N):
+        return self._get("R", canon, lambda F, f, N: vint.check_reader(F, f, N, vint.TAKE_ONE), N)
+
 
 # ---- serializer-side cells --------------------------------------------------------------------
 
